@@ -32,13 +32,21 @@ type c08GT struct { // harness ground truth per (phantom, secret, transport)
 }
 
 type c08World struct {
-	rd     *RegisteredDecoys
-	ann    []string
+	rd      *RegisteredDecoys
+	ann     []string
 	lastNow int64 // virtual clock (seconds); records are aged by shifting their real timestamps
 	gt      map[string]*c08GT
-	idx    map[string]string // model key "ph,identhex" -> Go timeout index learned at collect
-	logger *log.Logger
+	logger  *log.Logger
+	t0      time.Time // real time at which the history started (see c08SlowLimit)
 }
+
+// The code reads the real clock: the age it sees is the virtual age plus the real time that has
+// passed since the record was created, i.e. at most the real duration of the whole history. A history
+// that took longer than this limit (a stalled machine) is discarded as a whole — no case, no oracle
+// verdict — so that no verdict ever depends on timing: below the limit every age the code computes is
+// in [virtual age, virtual age + 0.9 s), ages are probed no closer than 1 s to a lifetime, and the
+// creation time of a record is recovered exactly by rounding its age down to whole seconds.
+const c08SlowLimit = 900 * time.Millisecond
 
 var c08Phantoms = []string{"10.0.0.1", "10.0.0.2", "2001:db8::1"}
 var c08Transports = []pb.TransportType{pb.TransportType_Min, pb.TransportType_Prefix, pb.TransportType_DTLS, pb.TransportType_Obfs4}
@@ -52,7 +60,7 @@ func c08Secret(i int) []byte {
 }
 
 func newC08World() *c08World {
-	w := &c08World{rd: NewRegisteredDecoys(), gt: map[string]*c08GT{}, idx: map[string]string{}}
+	w := &c08World{rd: NewRegisteredDecoys(), gt: map[string]*c08GT{}, t0: time.Now()}
 	w.rd.transports[pb.TransportType_Min] = min.Transport{}
 	w.rd.transports[pb.TransportType_Prefix] = prefix.Transport{}
 	w.rd.transports[pb.TransportType_DTLS] = dtls.Transport{}
@@ -102,7 +110,7 @@ func (w *c08World) advance(now int64) {
 // vcreated is the virtual time at which the record's clock started, as the code sees it now.
 func (w *c08World) vcreated(to *DecoyTimeout) int64 {
 	age := time.Since(to.registrationTime)
-	return w.lastNow - int64((age+500*time.Millisecond)/time.Second)
+	return w.lastNow - int64(age/time.Second)
 }
 
 func (w *c08World) dump() string {
@@ -117,7 +125,19 @@ func (w *c08World) dump() string {
 	}
 	sort.Strings(d)
 	sort.Strings(t)
-	return "D:" + strings.Join(d, "/") + "|T:" + strings.Join(t, "/")
+	// the outer level of the nested map: which per-phantom buckets are stored (also empty ones)
+	var p []string
+	for ph := range w.rd.decoys {
+		p = append(p, ph)
+	}
+	sort.Strings(p)
+	return "D:" + strings.Join(d, "/") + "|T:" + strings.Join(t, "/") + "|P:" + strings.Join(p, ",")
+}
+
+// c08Cfg is the head of the model line: the lifetimes are the ones the code under test uses (whole
+// seconds), so the model is driven by the code's own limits while the oracle keeps the property's.
+func (w *c08World) cfg() string {
+	return fmt.Sprintf("registry|%d|%d|1,4,3|", int64(w.rd.timeoutUnused/time.Second), int64(w.rd.timeoutActive/time.Second))
 }
 
 type c08Op struct {
@@ -133,12 +153,17 @@ func c08Alive(g *c08GT, now int64) bool {
 	return age <= c08Active && (g.used || age <= c08Unused)
 }
 
-// runC08 executes one history on the implementation; returns model ops, impl outs, final dump.
-func runC08(out *vlib.Out, ops []c08Op) (string, string) {
+// runC08 executes one history on the implementation; returns the model line, the implementation's
+// answer (outs + final dump) and whether the history counts (false: it was slower than c08SlowLimit
+// and is discarded, together with whatever the oracles said about it).
+func runC08(out *vlib.Out, ops []c08Op) (string, string, bool) {
 	w := newC08World()
 	var mops, outs []string
+	type c08Fail struct{ sig, what, replay string }
+	var fails []c08Fail
+	checks := 0
 	fail := func(sig, what string) {
-		out.OracleFail(sig, what, "registry|600|21600|1,4,3|"+strings.Join(mops, ";"))
+		fails = append(fails, c08Fail{sig, what, w.cfg() + strings.Join(mops, ";")})
 	}
 	for _, op := range ops {
 		d := w.mkReg(op.ph, op.sec, op.tr)
@@ -182,7 +207,7 @@ func runC08(out *vlib.Out, ops []c08Op) (string, string) {
 					w.gt[gtKey(op.ph, op.sec, op.tr)] = g
 				}
 				// oracle (C09 announce-once, sequential part): announced iff it was not valid before
-				out.Checked()
+				checks++
 				if (len(w.ann) == 1) == g.valid {
 					fail("C08:announce-once", fmt.Sprintf("register announced=%v although valid-before=%v", len(w.ann) == 1, g.valid))
 				}
@@ -219,7 +244,7 @@ func runC08(out *vlib.Out, ops []c08Op) (string, string) {
 				dd := w.mkReg(ph, sec, tr)
 				tracked := w.rd.RegistrationExists(dd) != nil
 				want := c08Alive(g, op.now)
-				out.Checked()
+				checks++
 				if tracked && !want {
 					fail("C08:kept-past-lifetime", fmt.Sprintf("%s tracked after sweep at %d: age %d used %v", key, op.now, op.now-g.time, g.used))
 				}
@@ -240,6 +265,25 @@ func runC08(out *vlib.Out, ops []c08Op) (string, string) {
 			if w.rd.totalRegistrations() != len(w.gt) || len(w.rd.decoysTimeouts) != len(w.gt) {
 				fail("C08:residue", fmt.Sprintf("after sweep at %d: regs=%d timeouts=%d expected=%d", op.now, w.rd.totalRegistrations(), len(w.rd.decoysTimeouts), len(w.gt)))
 			}
+			// forgotten entirely: the nested map keeps one inner map per phantom that still has a tracked
+			// registration — an inner map left behind empty (or kept for a phantom whose registrations
+			// have all expired) is residue that grows with every phantom address ever used
+			gtPh := map[int]bool{}
+			for key := range w.gt {
+				var ph, sec, tr int
+				fmt.Sscanf(key, "%d/%d/%d", &ph, &sec, &tr)
+				gtPh[ph] = true
+			}
+			checks++
+			empty := 0
+			for _, m := range w.rd.decoys {
+				if len(m) == 0 {
+					empty++
+				}
+			}
+			if empty > 0 || len(w.rd.decoys) != len(gtPh) {
+				fail("C08:residue-phantom-bucket", fmt.Sprintf("after sweep at %d: %d per-phantom maps stored (%d of them empty), %d phantoms have a tracked registration", op.now, len(w.rd.decoys), empty, len(gtPh)))
+			}
 		case 'l':
 			mops = append(mops, fmt.Sprintf("l,%s", phs))
 			var ids []string
@@ -258,7 +302,7 @@ func runC08(out *vlib.Out, ops []c08Op) (string, string) {
 					want[w.ident(w.mkReg(ph, sec, tr))] = true
 				}
 			}
-			out.Checked()
+			checks++
 			for _, id2 := range ids {
 				if !want[id2] {
 					fail("C08:lookup-returns-unvalidated-or-forgotten", "lookup on "+phs+" returned "+id2+" which is not a validated, tracked registration")
@@ -281,7 +325,25 @@ func runC08(out *vlib.Out, ops []c08Op) (string, string) {
 		out.Count("op:" + string(op.kind))
 		out.Count("out:" + strings.SplitN(outs[len(outs)-1], " ", 2)[0])
 	}
-	return "registry|600|21600|1,4,3|" + strings.Join(mops, ";"), strings.Join(outs, ";") + "|" + w.dump()
+	model, impl := w.cfg()+strings.Join(mops, ";"), strings.Join(outs, ";")+"|"+w.dump()
+	if time.Since(w.t0) >= c08SlowLimit {
+		out.Count("discarded:slow-history")
+		return model, impl, false
+	}
+	for i := 0; i < checks; i++ {
+		out.Checked()
+	}
+	for _, f := range fails {
+		out.OracleFail(f.sig, f.what, f.replay)
+	}
+	return model, impl, true
+}
+
+// c08Case runs one history and records it as a correspondence case unless it was discarded.
+func c08Case(out *vlib.Out, h []c08Op) {
+	if m, i, ok := runC08(out, h); ok {
+		out.Case(m, i, true)
+	}
 }
 
 func mustUnhex(s string) []byte {
@@ -296,9 +358,11 @@ func mustUnhex(s string) []byte {
 func c08RandomHistory(r *vlib.Rand, n, nph, nsec int) []c08Op {
 	ops := make([]c08Op, 0, n)
 	now := int64(0)
+	var starts []int64 // times at which something was tracked / registered: candidate creation times
 	for i := 0; i < n; i++ {
-		// time advances in whole minutes; sweeps happen on the half minute so that no record is
-		// ever exactly at a limit (the property leaves that instant open)
+		// time advances in whole minutes; ordinary sweeps happen on the half minute, boundary sweeps one
+		// second before / after a record reaches a lifetime: no record is ever exactly at a limit (the
+		// property leaves that instant open)
 		switch r.Intn(10) {
 		case 0:
 			now += 60 * int64(r.Range(1, 12))
@@ -314,14 +378,24 @@ func c08RandomHistory(r *vlib.Rand, n, nph, nsec int) []c08Op {
 		switch k := r.Intn(20); {
 		case k < 4:
 			op.kind = 't'
+			starts = append(starts, now)
 		case k < 9:
 			op.kind = 'r'
+			starts = append(starts, now)
 		case k < 12:
 			op.kind = 'm'
 		case k < 15:
 			op.kind = 's'
 			op.now = now + 30
-			now += 60 // the clock never runs backwards; later operations stay on whole minutes
+			if len(starts) > 0 && r.Chance(1, 2) {
+				// aim at a lifetime boundary of something that was tracked earlier
+				at := starts[r.Intn(len(starts))] + []int64{c08Unused, c08Active}[r.Intn(2)] + []int64{-1, 1}[r.Intn(2)]
+				if at > now {
+					op.now = at
+				}
+			}
+			// the clock never runs backwards; later operations are on whole minutes again
+			now = (op.now/60 + 1) * 60
 		case k < 17:
 			op.kind = 'l'
 		case k < 18:
@@ -336,9 +410,83 @@ func c08RandomHistory(r *vlib.Rand, n, nph, nsec int) []c08Op {
 	return ops
 }
 
+// c08Exhaustive runs every history of length ≤ L over the alphabet; a non-sweep letter happens 60 s
+// after the previous operation, a sweep letter `now` seconds after it.
+func c08Exhaustive(out *vlib.Out, alpha []c08Op, L int) {
+	var rec func(prefix []c08Op)
+	rec = func(prefix []c08Op) {
+		if len(prefix) > 0 {
+			h := make([]c08Op, len(prefix))
+			now := int64(0)
+			for i, o := range prefix {
+				h[i] = o
+				if o.kind == 's' {
+					now += o.now
+				} else {
+					now += 60
+				}
+				h[i].now = now
+			}
+			c08Case(out, h)
+		}
+		if len(prefix) == L {
+			return
+		}
+		for _, a := range alpha {
+			rec(append(append([]c08Op(nil), prefix...), a))
+		}
+	}
+	rec(nil)
+}
+
+// c08Boundaries: every lifetime boundary from both sides, one second away, for each way a record can
+// come into being and be touched before the sweep: created by track or register, a duplicate in
+// between (must not refresh the clock), a connection (must extend the lifetime to 6 h, must not
+// restart the clock), a sibling registration of the same secret under another transport.
+func c08Boundaries(out *vlib.Out) {
+	for tr := 0; tr < 3; tr++ {
+		for _, create := range []byte{'t', 'r'} {
+			for dup := 0; dup < 3; dup++ { // 0 none, 1 duplicate track, 2 duplicate register
+				for _, used := range []bool{false, true} {
+					for _, sibling := range []bool{false, true} {
+						for _, lim := range []int64{c08Unused, c08Active} {
+							for _, d := range []int64{-1, 1} {
+								h := []c08Op{{kind: create, tr: tr, now: 0}}
+								if sibling {
+									h = append(h, c08Op{kind: 'r', tr: (tr + 1) % 3, now: 0})
+								}
+								if dup > 0 {
+									h = append(h, c08Op{kind: []byte{'t', 'r'}[dup-1], tr: tr, now: 60})
+								}
+								if used {
+									h = append(h, c08Op{kind: 'm', tr: tr, now: 120})
+								}
+								h = append(h, c08Op{kind: 's', now: lim + d}, c08Op{kind: 'l'}, c08Op{kind: 'T'},
+									c08Op{kind: 's', now: c08Active + d}, c08Op{kind: 'l'}, c08Op{kind: 'T'})
+								c08Case(out, h)
+								out.Count("boundary")
+							}
+						}
+					}
+				}
+			}
+		}
+	}
+}
+
 func TestVerifC08(t *testing.T) {
 	out := vlib.Open("C08")
 	defer out.Close()
+	// ---- the lifetimes themselves: the property says 10 minutes and 6 hours
+	{
+		rd := NewRegisteredDecoys()
+		out.Checked()
+		if rd.timeoutUnused != 10*time.Minute || rd.timeoutActive != 6*time.Hour ||
+			defaultUnusedTimeout != 10*time.Minute || defaultActiveTimeout != 6*time.Hour {
+			out.OracleFail("C08:lifetime-not-10min-6h", fmt.Sprintf("the registry expires unused registrations after %v (default %v) and used ones after %v (default %v); the property says 10m and 6h",
+				rd.timeoutUnused, defaultUnusedTimeout, rd.timeoutActive, defaultActiveTimeout), "limits: NewRegisteredDecoys().timeoutUnused/timeoutActive, defaultUnusedTimeout/defaultActiveTimeout")
+		}
+	}
 	if rp := vlib.Replay(); rp != "" {
 		c08Replay(t, out, rp)
 		return
@@ -350,54 +498,33 @@ func TestVerifC08(t *testing.T) {
 		{{kind: 't', ph: 0, sec: 0, tr: 0, now: 0}, {kind: 't', ph: 0, sec: 0, tr: 0, now: 60}, {kind: 'l', ph: 0}, {kind: 'r', ph: 0, sec: 0, tr: 0, now: 120},
 			{kind: 'r', ph: 0, sec: 0, tr: 0, now: 120}, {kind: 'l', ph: 0}, {kind: 's', now: 630}, {kind: 's', now: 750}, {kind: 'l', ph: 0}},
 		{{kind: 'r', ph: 2, sec: 1, tr: 2, now: 0}, {kind: 'r', ph: 0, sec: 1, tr: 2, now: 0}, {kind: 'm', ph: 2, sec: 1, tr: 2}, {kind: 's', now: 21630}, {kind: 'T'}},
+		// every registration of a phantom expires while another phantom keeps one: the emptied inner map must go
+		{{kind: 'r', ph: 0, sec: 0, tr: 0, now: 0}, {kind: 't', ph: 0, sec: 1, tr: 1, now: 0}, {kind: 'r', ph: 1, sec: 0, tr: 0, now: 0}, {kind: 'm', ph: 1, sec: 0, tr: 0},
+			{kind: 's', now: 630}, {kind: 'n', ph: 0}, {kind: 'T'}, {kind: 'r', ph: 0, sec: 0, tr: 0, now: 720}, {kind: 's', now: 21630}, {kind: 'T'}},
 	}
 	for _, h := range corpus {
-		m, i := runC08(out, h)
-		out.Case(m, i, true)
+		c08Case(out, h)
 	}
-	// exhaustive: every history of length ≤ L over a small alphabet (1 phantom, 1 secret, 2 transports)
-	alpha := []c08Op{
+	c08Boundaries(out)
+	// exhaustive: every history of length ≤ L over a small alphabet (1 phantom, 1 secret, 2 transports).
+	// `s+30` lets unused registrations survive a sweep, `t` on the second transport gives a tracked but
+	// never validated sibling.
+	alpha8 := []c08Op{
 		{kind: 'r', tr: 0}, {kind: 'r', tr: 1}, {kind: 't', tr: 0}, {kind: 'm', tr: 0}, {kind: 'm', tr: 1},
 		{kind: 's', now: 630}, {kind: 's', now: 21630}, {kind: 'l'},
 	}
-	L := vlib.Budget(4, 6)
-	if L > 6 {
-		L = 6
+	alpha10 := append(append([]c08Op(nil), alpha8...), c08Op{kind: 's', now: 30}, c08Op{kind: 't', tr: 1})
+	if vlib.Tier() == "thorough" {
+		c08Exhaustive(out, alpha8, 6)
+		c08Exhaustive(out, alpha10, 5)
+	} else {
+		c08Exhaustive(out, alpha10, 4)
 	}
-	var rec func(prefix []c08Op)
-	rec = func(prefix []c08Op) {
-		if len(prefix) > 0 {
-			// assign times: each op 60 s after the previous; a sweep adds its offset
-			h := make([]c08Op, len(prefix))
-			now := int64(0)
-			for i, o := range prefix {
-				h[i] = o
-				if o.kind == 's' {
-					now += o.now
-					h[i].now = now
-				} else {
-					now += 60
-					h[i].now = now
-				}
-			}
-			m, i := runC08(out, h)
-			out.Case(m, i, true)
-		}
-		if len(prefix) == L {
-			return
-		}
-		for _, a := range alpha {
-			rec(append(append([]c08Op(nil), prefix...), a))
-		}
-	}
-	rec(nil)
 	// random long histories over larger alphabets
 	r := vlib.NewRand("C08")
 	n := vlib.Budget(600, 20000)
 	for i := 0; i < n; i++ {
-		h := c08RandomHistory(r, r.Range(5, 400), r.Range(1, 3), r.Range(1, 4))
-		m, im := runC08(out, h)
-		out.Case(m, im, true)
+		c08Case(out, c08RandomHistory(r, r.Range(5, 400), r.Range(1, 3), r.Range(1, 4)))
 	}
 }
 
@@ -416,7 +543,7 @@ func c08Replay(t *testing.T, out *vlib.Out, path string) {
 		idents := map[string][3]int{}
 		w := newC08World()
 		for ph := range c08Phantoms {
-			for sec := 0; sec < 8; sec++ {
+			for sec := 0; sec < 16; sec++ {
 				for tr := 0; tr < 3; tr++ {
 					idents[c08Phantoms[ph]+","+w.ident(w.mkReg(ph, sec, tr))] = [3]int{ph, sec, tr}
 				}
@@ -426,30 +553,52 @@ func c08Replay(t *testing.T, out *vlib.Out, path string) {
 		for i, p := range c08Phantoms {
 			phIdx[p] = i
 		}
+		// an identifier or phantom the replay does not know must not silently become (0,0,0)
+		lookup := func(ph, id, tr string) [3]int {
+			if tr == "2" { // the disabled transport: its identifier is a placeholder
+				pi, ok := phIdx[ph]
+				if !ok {
+					t.Fatalf("replay: unknown phantom %q in %q", ph, line)
+				}
+				return [3]int{pi, 0, 3}
+			}
+			k, ok := idents[ph+","+id]
+			if !ok {
+				t.Fatalf("replay: identifier %s on %s is none of the harness's registrations (line %q)", id, ph, line)
+			}
+			return k
+		}
 		for _, s := range strings.Split(f[4], ";") {
 			p := strings.Split(s, ",")
 			op := c08Op{kind: p[0][0]}
 			switch op.kind {
 			case 't', 'r':
-				k := idents[p[1]+","+p[2]]
+				k := lookup(p[1], p[2], p[3])
 				op.ph, op.sec, op.tr = k[0], k[1], k[2]
-				if p[3] == "2" {
-					op.tr = 3
-				}
 				fmt.Sscan(p[4], &op.now)
 			case 'm', 'e':
-				k := idents[p[1]+","+p[2]]
+				k := lookup(p[1], p[2], p[3])
 				op.ph, op.sec, op.tr = k[0], k[1], k[2]
 			case 's':
 				fmt.Sscan(p[1], &op.now)
 			case 'l', 'n':
-				op.ph = phIdx[p[1]]
+				pi, ok := phIdx[p[1]]
+				if !ok {
+					t.Fatalf("replay: unknown phantom %q in %q", p[1], line)
+				}
+				op.ph = pi
 			}
 			ops = append(ops, op)
 		}
-		m, i := runC08(out, ops)
-		out.Case(m, i, true)
-		fmt.Println("REPLAY model-line:", m)
-		fmt.Println("REPLAY impl      :", i)
+		for try := 0; try < 5; try++ {
+			m, i, ok := runC08(out, ops)
+			if !ok {
+				continue // slower than c08SlowLimit: run it again
+			}
+			out.Case(m, i, true)
+			fmt.Println("REPLAY model-line:", m)
+			fmt.Println("REPLAY impl      :", i)
+			break
+		}
 	}
 }
